@@ -478,7 +478,18 @@ class ExprMixin:
                 outs = [(s.copy(), exc("CompareError"))]
             else:
                 outs = []
-            e = self.same(s, a, b)
+            if isinstance(op, (ast.Eq, ast.NotEq)) and a.kind == "list" and b.kind == "list":
+                # == on sequences is STRUCTURAL: same length and pairwise equal items (identity implies it)
+                if a.x != b.x:
+                    raise Unsupported("== on lists of different element kinds")
+                j = z3.Int("j!eq")
+                na, nb = self.llen(s, a.z), self.llen(s, b.z)
+                ca, cb = self.lcontent(s, a.z, a.x), self.lcontent(s, b.z, b.x)
+                e = z3.Or(a.z == b.z,
+                          z3.And(na == nb, z3.ForAll([j], z3.Implies(z3.And(j >= 0, j < na),
+                                                                     z3.Select(ca, j) == z3.Select(cb, j)))))
+            else:
+                e = self.same(s, a, b)
             if e is None:
                 if a.kind != b.kind:
                     e = z3.BoolVal(False)
